@@ -24,6 +24,9 @@ use std::collections::{BTreeMap, HashSet};
 use std::io::Read;
 use std::sync::Mutex;
 
+/// parallel libFuzzer processes per campaign
+pub const JOBS: u64 = 8;
+
 pub struct Target {
     pub name: &'static str,
     pub eval: fn(&[u8]) -> Verdict,
@@ -385,7 +388,7 @@ extern "C" fn dump_stats() {
         if let Some(s) = g.as_ref() {
             if let Some(p) = &s.stats_path {
                 let st = FuzzStats { evaluations: s.evaluations, nontrivial: s.nontrivial.iter().copied().take(500_000).collect(), classes: s.classes.clone(), known_hits: s.known_hits.clone() };
-                let _ = std::fs::write(p, serde_json::to_string(&st).unwrap_or_default());
+                let _ = std::fs::write(format!("{p}{}.json", std::process::id()), serde_json::to_string(&st).unwrap_or_default());
             }
         }
     }
@@ -481,10 +484,10 @@ pub fn campaign(run: &mut Run, target: &str, runs: u64, n_seeds: usize) {
     let tag = format!("{}-{}-{}", run.id, target, run.seed);
     let corpus = format!("{fuzz_dir}/corpus/{tag}");
     let artifacts = format!("{fuzz_dir}/artifacts/{tag}");
-    let stats_path = format!("{fuzz_dir}/artifacts/{tag}.stats.json");
+    // each fuzzer process appends its pid
+    let stats_path = format!("{fuzz_dir}/artifacts/{tag}.stats.");
     let _ = std::fs::remove_dir_all(&corpus);
     let _ = std::fs::remove_dir_all(&artifacts);
-    let _ = std::fs::remove_file(&stats_path);
     if std::fs::create_dir_all(&corpus).is_err() || std::fs::create_dir_all(&artifacts).is_err() {
         run.inconclusive.push(format!("{name}: cannot create {corpus}"));
         return;
@@ -518,10 +521,14 @@ pub fn campaign(run: &mut Run, target: &str, runs: u64, n_seeds: usize) {
         }
     }
     let seed32 = (u64::from_le_bytes(run.seed_for(&name)[..8].try_into().unwrap()) % 0x7fff_fffe + 1).to_string();
-    let mut cmd = std::process::Command::new("cargo");
-    cmd.args(["+nightly", "fuzz", "run", "--fuzz-dir", &fuzz_dir, "fz", &corpus, "--"]);
+    // run the built binary directly, as JOBS parallel libFuzzer processes sharing the corpus (each does runs / JOBS)
+    let bin = format!("{root}/harness/target/x86_64-unknown-linux-gnu/release/fz");
+    let mut cmd = std::process::Command::new(&bin);
+    cmd.arg(&corpus);
     cmd.args([
-        format!("-runs={runs}"),
+        format!("-runs={}", (runs / JOBS).max(1)),
+        format!("-jobs={JOBS}"),
+        format!("-workers={JOBS}"),
         format!("-seed={seed32}"),
         format!("-max_len={}", t.max_len),
         "-len_control=0".to_string(),
@@ -531,20 +538,62 @@ pub fn campaign(run: &mut Run, target: &str, runs: u64, n_seeds: usize) {
         "-rss_limit_mb=6144".to_string(),
     ]);
     env(&mut cmd);
+    // the per-job logs (fuzz-<k>.log) are written to the working directory
+    cmd.current_dir(&artifacts);
     let out = match cmd.output() {
         Ok(o) => o,
         Err(e) => {
-            run.inconclusive.push(format!("{name}: cannot run the fuzzer: {e}"));
+            run.inconclusive.push(format!("{name}: cannot run the fuzzer {bin}: {e}"));
             return;
         }
     };
-    let log = String::from_utf8_lossy(&out.stderr).to_string();
-    let stat = |key: &str| -> Option<u64> { log.lines().rev().find(|l| l.contains(key)).and_then(|l| l.rsplit(':').next()).and_then(|v| v.trim().parse().ok()) };
-    let executed = stat("stat::number_of_executed_units");
-    let cov_line = log.lines().rev().find(|l| l.contains(" cov: ")).unwrap_or("").to_string();
-    let field = |k: &str| -> Option<u64> { cov_line.split_whitespace().skip_while(|w| *w != k).nth(1).and_then(|v| v.parse().ok()) };
+    let mut log = String::from_utf8_lossy(&out.stderr).to_string();
+    let mut executed_total = 0u64;
+    let (mut cov, mut ft, mut corp) = (0u64, 0u64, 0u64);
+    for k in 0..JOBS {
+        if let Ok(l) = std::fs::read_to_string(format!("{artifacts}/fuzz-{k}.log")) {
+            let stat = |key: &str| -> Option<u64> { l.lines().rev().find(|x| x.contains(key)).and_then(|x| x.rsplit(':').next()).and_then(|v| v.trim().parse().ok()) };
+            executed_total += stat("stat::number_of_executed_units").unwrap_or(0);
+            if let Some(cl) = l.lines().rev().find(|x| x.contains(" cov: ")) {
+                let field = |kk: &str| -> u64 { cl.split_whitespace().skip_while(|w| *w != kk).nth(1).and_then(|v| v.split('/').next().and_then(|x| x.parse().ok())).unwrap_or(0) };
+                cov = cov.max(field("cov:"));
+                ft = ft.max(field("ft:"));
+                corp = corp.max(field("corp:"));
+            }
+            if l.contains("FUZZ-VIOLATION") || l.contains("ERROR:") {
+                log.push_str(&l.lines().filter(|x| x.contains("FUZZ-VIOLATION") || x.contains("ERROR:")).take(4).collect::<Vec<_>>().join("\n"));
+            }
+        }
+    }
+    let executed = Some(executed_total);
+    let field = |k: &str| -> Option<u64> {
+        match k {
+            "cov:" => Some(cov),
+            "ft:" => Some(ft),
+            _ => Some(corp),
+        }
+    };
     // statistics of the oracle inside the fuzzer
-    let fstats: FuzzStats = std::fs::read_to_string(&stats_path).ok().and_then(|s| serde_json::from_str(&s).ok()).unwrap_or_default();
+    let mut fstats = FuzzStats::default();
+    if let Ok(rd) = std::fs::read_dir(format!("{fuzz_dir}/artifacts")) {
+        for e in rd.filter_map(|e| e.ok()) {
+            let p = e.path();
+            let n = p.file_name().and_then(|s| s.to_str()).unwrap_or("").to_string();
+            if n.starts_with(&format!("{tag}.stats.")) {
+                if let Some(st) = std::fs::read_to_string(&p).ok().and_then(|s| serde_json::from_str::<FuzzStats>(&s).ok()) {
+                    fstats.evaluations += st.evaluations;
+                    fstats.nontrivial.extend(st.nontrivial);
+                    for (c, k) in st.classes {
+                        *fstats.classes.entry(c).or_insert(0) += k;
+                    }
+                    for (c, k) in st.known_hits {
+                        *fstats.known_hits.entry(c).or_insert(0) += k;
+                    }
+                }
+                let _ = std::fs::remove_file(&p);
+            }
+        }
+    }
     let before_nt = run.stats.nontrivial.len();
     run.stats.evaluations += fstats.evaluations;
     for f in &fstats.nontrivial {
@@ -593,7 +642,7 @@ pub fn campaign(run: &mut Run, target: &str, runs: u64, n_seeds: usize) {
             run.inconclusive.push(format!("{name}: libFuzzer reported {fname} (resource limit, not a verdict): {}", a.display()));
         }
     }
-    if !out.status.success() && arts.is_empty() && !reported {
+    if !out.status.success() && !arts.iter().any(|a| a.file_name().and_then(|s| s.to_str()).map_or(false, |n| !n.starts_with("fuzz-"))) && !reported {
         let tail: Vec<&str> = log.lines().rev().take(6).collect();
         run.inconclusive.push(format!("{name}: fuzzer exited with {:?} without an artifact: {}", out.status.code(), tail.join(" | ")));
     }
@@ -601,6 +650,6 @@ pub fn campaign(run: &mut Run, target: &str, runs: u64, n_seeds: usize) {
         "name": name, "kind": "libfuzzer (cargo-fuzz, ASan, oracle inside the target)", "runs_requested": runs, "executed_units": executed,
         "seed_corpus": seeds.len(), "final_corpus": field("corp:"), "coverage_edges": field("cov:"), "features": field("ft:"),
         "oracle_evaluations": fstats.evaluations, "new_distinct_nontrivial": run.stats.nontrivial.len() - before_nt,
-        "artifacts": arts.len(), "wall_s": t0.elapsed().as_secs_f64(),
+        "artifacts": arts.iter().filter(|a| a.file_name().and_then(|s| s.to_str()).map_or(false, |n| !n.starts_with("fuzz-"))).count(), "wall_s": t0.elapsed().as_secs_f64(),
     }));
 }
